@@ -7,8 +7,9 @@ VERIF = os.path.dirname(os.path.dirname(os.path.abspath(__file__)))
 
 TIE = ("Tie to the code: the Lean model is hand-written; on every run the Rust harness (path dependency on /repo, rebuilt from the "
        "working tree) and the compiled Lean driver execute the same generated cases and every difference is reported. "
-       "Trusted: Lean kernel (+ propext, Classical.choice, Quot.sound), the harness/driver/comparator, the models of std::io, bstr, "
-       "memchr, serde_json, regex, pico_args.")
+       "Trusted: Lean kernel (+ propext, Classical.choice, Quot.sound), the harness/driver/comparator, the models of std::io buffering, "
+       "the regex engine's matching, bstr replace/trim, pico_args; the library routines on the data path (bstr for_byte_record, std read_until, memmem, serde_json escaping, core UTF-8 validation, regex replace_all) "
+       "are transcribed from their source and proved equal to the model functions (Props/ReadLoops, TextLoops, LibLit, RegexLit).")
 
 # id -> (category, text, note, technique, design_ref)
 CLAIMED = {}
@@ -106,7 +107,8 @@ claim("C08", "proof",
       "element), every literal delimiter and -g -p -t -s -m; json_record_decodes: the output line decodes, with an independent strict RFC 8259 reader defined in Lean, to exactly "
       "the selected part texts — one element per field of a range, one per fallback; jsonDecodeString (jsonString s ++ rest) = (s, rest) for every byte string; no raw control "
       "byte in a line; same for -c (chars_json_record_eq_spec). Direct oracle: every output line parsed by python's strict json and compared element-wise with an independent selection.",
-      TIE + " serde_json's escaping table is modelled (jsonEscapeByte) and validated by the correspondence.",
+      TIE + " serde_json's escaping (format_escaped_str_contents, the 256-entry ESCAPE table, write_char_escape) and core's UTF-8 validation (run_utf8_validation with its ASCII fast path, UTF8_CHAR_WIDTH) are transcribed from the library source "
+      "and proved equal to jsonString / validUtf8 for every input (Props/LibLit.lean, 71 theorems: formatEscapedStrLit_eq, runUtf8ValidationLit_ok_iff, the table facts by decide +kernel over all 256 bytes; writeAsJsonLit_eq has no hypothesis).",
       "Lean 4 refinement + round-trip theorems (encoder/decoder, unpack = expand) + independent JSON reader oracle", "§4 C08")
 claim("C19", "proof",
       "Theorems over the whole option-set space (case analysis, not enumeration): decision f = reject ⇔ conflict f (the statement's list, clause by "
@@ -162,7 +164,9 @@ claim("C16", "proof",
       "end, -s, -m, fallbacks); with -r R under slice-stability of the matcher the separators are rendered as R verbatim (with -g: regexCut_replace_greedy_eq_spec, under the extra hypothesis GreedyTiled — every (RE)+ match is tiled by the RE matches inside it — proved for one-byte expressions of the Lean matcher and measured on the real engine's match lists in every run); -p -r R equals the LITERAL engine on the rewritten record "
       "(hence the literal refinement theorem). The executable Lean matcher for the family is proved to satisfy the contract. Direct oracle: the statement executed over match positions of "
       "an INDEPENDENT engine (python re), in-process and on the real binary; the real engine's match positions compared with python's and the Lean matcher's on every record.",
-      TIE + " Partial by nature: the regex crate is outside the model; slice-stability and 'greedy = runs of normal matches' are validated by testing, not proved for the real engine; "
+      TIE + " The four functions that CONSUME the match list (fill_with_fields_locations_using_regex, trim_regex, compress_delimiter_with_regex, regex's replace_all with NoExpand) are transcribed statement by statement and proved equal to the normal forms for every line and every match list — "
+      "exactly: = the normal form when the list satisfies a decidable condition (ChainOK / TrimOK, implied by the find_iter contract, empty matches included), a slice panic otherwise (Props/RegexLit.lean, 29 theorems); expressions that match the empty string are decided on the real engine's own match positions (c16.empty_match_stream). "
+      "Partial by nature: the regex crate is outside the model; slice-stability and 'greedy = runs of normal matches' are validated by testing, not proved for the real engine; "
       "anchors, look-around, empty matches, class ranges are outside the family.",
       "Lean 4 refinement theorems parametric in the matcher + oracle over an independent regex engine + matcher correspondence", "§4 C16")
 claim("C17", "other",
